@@ -2169,9 +2169,11 @@ pub fn run(ctx: &mut Ctx) {
     corpus(ctx);
     loops_suite(ctx);
     formats_suite(ctx);
+    super::c12_more::run(ctx);
 }
 
 fn replay(ctx: &mut Ctx, case: &[String]) {
+    if super::c12_more::replay(ctx, case) { return; }
     match case.first().map(|s| s.as_str()) {
         Some("fmt") if case.len() >= 5 => {
             if let (Some(fmt), Ok(sub), Ok(kind), Ok(cap)) = (Fmt::parse(&case[1]), case[2].parse::<u64>(), case[3].parse::<usize>(), case[4].parse::<usize>()) {
